@@ -111,7 +111,7 @@ func (p *Program) generate(j *Job) {
 			x.ctx.assume(st, r.t)
 		}
 		// vacuity guard: the precondition must be satisfiable
-		x.obls = append(x.obls, &Obligation{Name: j.Name + "#pre-sat", Kind: "pre-sat", Job: j.Name, NFact: st.nfact, PC: True, Goal: False, Note: "precondition is satisfiable (expected: sat)"})
+		x.obls = append(x.obls, &Obligation{Name: j.Name + "#pre-sat", Kind: "pre-sat", Job: j.Name, NFact: len(x.ctx.facts), PC: True, Goal: False, Note: "precondition is satisfiable (expected: sat)"})
 		if !c.NoFrame {
 			fs := &frameSpec{alloc0: st.alloc, allowed: map[string][]*Term{}, any: map[string]bool{}}
 			ev := &evaluator{x: x, fr: fr, st: st, lets: map[string]*Val{}}
@@ -156,7 +156,27 @@ func (p *Program) generate(j *Job) {
 	if rs == nil {
 		return
 	}
-	if c != nil {
+	// returned pointers carry their type invariant
+	if rv != nil {
+		rets := []*Val{rv}
+		if rv.Tuple != nil {
+			rets = rv.Tuple
+		}
+		for _, r := range rets {
+			if r != nil && r.Typ != nil {
+				if _, isPtr := r.Typ.Underlying().(*types.Pointer); isPtr && r.T != nil {
+					x.checkInv(rs, r, token.NoPos, "when returned")
+				}
+			}
+		}
+	}
+	if c != nil && c.Trusted {
+		x.trusted["TRUSTED-CONTRACT "+j.Name] = true
+		for _, cl := range c.Clauses {
+			cl.Used = true
+		}
+	}
+	if c != nil && !c.Trusted {
 		fr.results = rv
 		for i, r := range x.evalClauses(fr, rs, c.clauses("ensures", 0), nil, "ensures") {
 			_ = i
